@@ -1,8 +1,11 @@
 import Qryn.Read.Cursor
+import Qryn.Read.Assembly
 /-! Line protocol for C17.
     `c17cursor <samples> <ops>` — samples `ts:v,ts:v,…` (`-` = empty slice), ops `n` (Next), `a` (At),
     `s<t>` (Seek t) comma separated; answer: outputs in call order, `T`/`F`/`ts:v`/`!` (fault), comma separated.
-    `c17cursorw …` — same over the code as it was written (pinned tree). -/
+    `c17cursorw …` — same over the code as it was written (pinned tree).
+    `c17assemble <rows>` — rows `fp:val:ts,…` (`-` = none) in scan order; answer: the series in loop order,
+    `fp=ts:v|ts:v;fp=…` (`-` = no series, `!` = fault). -/
 namespace Driver.C17
 open Qryn.Read.Cursor
 
@@ -40,7 +43,24 @@ def cursor (runner : It → List Op → It × List Out) (ss ops : String) : Opti
   let outs := (runner (init samples) ops).2
   some (if outs.isEmpty then "-" else ",".intercalate (outs.map showOut))
 
+def parseRow (s : String) : Option Qryn.Read.Assembly.Row :=
+  match s.splitOn ":" with
+  | [a, b, c] => match a.toNat?, b.toInt?, c.toInt? with
+    | some fp, some v, some t => some ⟨fp, v, t⟩
+    | _, _, _ => none
+  | _ => none
+
+def showSeries (s : Qryn.Read.Assembly.Series) : String :=
+  toString s.fp ++ "=" ++ "|".intercalate (s.samples.map (fun x => toString x.ts ++ ":" ++ toString x.v))
+
+def assembleOp (rows : String) : Option String := do
+  let rs ← allSome ((parseList rows).map parseRow)
+  match Qryn.Read.Assembly.assemble rs with
+  | none => some "!"
+  | some ss => some (if ss.isEmpty then "-" else ";".intercalate (ss.map showSeries))
+
 def handle : List String → Option String
+  | ["c17assemble", rows] => assembleOp rows
   | ["c17cursor", ss, ops] => cursor run ss ops
   | ["c17cursorw", ss, ops] => cursor runW ss ops
   | _ => none
